@@ -91,12 +91,80 @@ def main(tier):
                     break
     chk.evaluations += alias_cases
     chk.extra["caller_owned_set_cases"] = alias_cases
+    # ---- negate is a function of the predicate as it is NOW: negate(p), change a parameter of p in place (the classes are plain
+    # mutable dataclasses), negate(p) again -- the second answer must be the complement of the changed p; and changing an
+    # earlier result must not show in a later one
+    import dataclasses
+
+    hist_cases = 0
+
+    def complement_on(pp, qq, probes):
+        for x in probes:
+            try:
+                a = pp(x)
+            except Exception:  # noqa: BLE001
+                continue
+            try:
+                b = qq(x)
+            except Exception as e:  # noqa: BLE001
+                return {"value": repr(x), "error": type(e).__name__}
+            if bool(a) == bool(b):
+                return {"value": repr(x), "p(x)": bool(a), "negate(p)(x)": bool(b)}
+        return None
+
+    for d, th in atoms:
+        try:
+            p = th()
+            if not dataclasses.is_dataclass(p) or p is th():  # module singletons (always_true_p ...) are shared: never touched
+                continue
+            fields = [f.name for f in dataclasses.fields(p)]
+        except Exception:  # noqa: BLE001
+            continue
+        change = None
+        for name in fields:
+            v = getattr(p, name, None)
+            if isinstance(v, set):
+                change = (name, "set.add", lambda v=v: v.add(3 if 3 not in v else 7))
+            elif isinstance(v, bool):
+                change = (name, "assign", lambda name=name, v=v: setattr(p, name, not v))
+            elif isinstance(v, (int, float)):
+                change = (name, "assign", lambda name=name, v=v: setattr(p, name, v + 1))
+            elif isinstance(v, str) and name in ("v",):
+                change = (name, "assign", lambda name=name, v=v: setattr(p, name, v + "a"))
+            if change:
+                break
+        if not change:
+            continue
+        try:
+            q1 = negate(p)
+            change[2]()
+            q2 = negate(p)
+        except Exception:  # noqa: BLE001
+            continue
+        hist_cases += 1
+        bad = complement_on(p, q2, values)
+        if bad:
+            chk.add_failure(f"negate(p); p.{change[0]} changed in place ({change[1]}); negate(p)   with p = {d}", {"what": "the second negate(p) is not the complement of p as it is now (an answer was remembered on the object)", **bad}, None)
+            continue
+        # the first result belongs to the caller: emptying / changing it must not reach later results
+        q1v = getattr(q1, "v", None)
+        if isinstance(q1v, set) and q1 is not p:
+            q1v.clear()
+            try:
+                q3 = negate(p)
+            except Exception:  # noqa: BLE001
+                continue
+            bad = complement_on(p, q3, values)
+            if bad:
+                chk.add_failure(f"q = negate(p); q.v.clear(); negate(p)   with p = {d}", {"what": "a result handed out earlier is handed out again: changing it changed what negate(p) returns", **bad}, None)
+    chk.evaluations += hist_cases
+    chk.extra["negate_again_after_change_cases"] = hist_cases
     chk.extra["value_checks"] = checked
     chk.extra["predicate_classes_covered"] = sorted(kinds)
     chk.rule = (
         "every exported constructor at 2-4 parameter choices + random composites + the C02/C03 atom grids and their negations (%d predicates): "
         "model negate vs predicate.negate (structural); then negate(p)(x) == not p(x) on %d values wherever p(x) is defined. "
-        "non-trivial = inputs with a dedicated dual or an unwrapped ~p (not the default wrapping)." % (len(objs), len(values))
+        "Histories: a caller-owned set changed after construction; negate(p), p changed in place, negate(p) again. non-trivial = inputs with a dedicated dual or an unwrapped ~p (not the default wrapping)." % (len(objs), len(values))
     )
     chk.samples = [f"{m} -> {e}" for m, e in list(zip(meta, expect))[10:14]]
     chk.assumptions = ["values come from totally ordered domains (no NaN)"]
